@@ -226,6 +226,35 @@ func C04(r *eng.Run) {
 	r.Phase("A1 product", t0, nil)
 
 	t0 = time.Now()
+	nlead := 2
+	if r.Thorough() {
+		nlead = 3
+	}
+	leads := LeadSweep(nlead)
+	sm := SmallShapes()
+	r.Bounds["lead_prefix_digits"] = nlead
+	r.Par(len(leads), func(w *eng.W, i int) {
+		var n int64
+		for _, c2 := range sm {
+			for _, g := range gaps {
+				qx, qy, ok := place(g)
+				if !ok {
+					continue
+				}
+				for s := 0; s < 4; s++ {
+					xb := MkBits(s&1 == 1, leads[i], qx)
+					yb := MkBits(s&2 == 2, c2, qy)
+					checkCmpPair(w, xb, yb)
+					checkCmpPair(w, yb, xb)
+					n += 2
+				}
+			}
+		}
+		w.CellN("lead-sweep", n, true)
+	})
+	r.Phase("A1b lead sweep", t0, nil)
+
+	t0 = time.Now()
 	r.Par(len(shapes), func(w *eng.W, i int) {
 		K := shapes[i]
 		L := ref.NumDigits(K)
